@@ -5,6 +5,7 @@ AllDev == {"UnwrapSharedContext", "JoinBlockedInAccept", "SessionIgnoresFlag", "
 DeadJoinDev == {"HandlerPanics", "DeadThreadFailsJoin"}
 HandlerDev == {"HandlerPanics"}
 PoisonDev == {"HandlerPanics", "HandlerPanicPoisons"}
+AbortDev == {"HugeMessageAborts"}
 BusyDev == {"UnboundedJoin"}
 RendezvousDev == AllDev \cup {"RendezvousSignal"}
 SelectDev == {"SignalPanicsDebugThread"}
